@@ -199,7 +199,7 @@ func runC15(env *Env, rc *RunCtx) {
 		} else {
 			et = ReplayThen(sigma, Mix(rc.execSeed, uint64(e)))
 		}
-		plan := NoFaults()
+		plan := WithStragglers()
 		plan.CancelAfter = j
 		r := env.Exec(et, mk(), plan)
 		rc.Count("fault_cancel", 1)
@@ -233,9 +233,10 @@ func runC15(env *Env, rc *RunCtx) {
 			} else {
 				et = ReplayThen(sigma, Mix(rc.execSeed, uint64(e)))
 			}
-			plan := NoFaults()
+			plan := WithStragglers()
 			plan.FaultAt = map[int]FaultKind{k: kind}
 			r := env.Exec(et, mk(), plan)
+			rc.Count("stragglers_completed_late", r.Late)
 			for fk, n := range r.FaultsFired {
 				rc.Count("fault_"+fk, n)
 			}
